@@ -27,6 +27,9 @@ Unannotated stretch at 8000 (both chromosomes).  Structures (each with a coverag
     late one (mean MAPQ of ALL attached reads < 30) - whatever is decided, the GTF and the model-reads table must agree
  D1 reads with exactly T1's intron chain whose last exon runs 300 bp past the annotated end (an unannotated distal polyA site): whatever
     is reported for them, never a "novel" model with the intron chain of a reference transcript
+ B9 unannotated four-exon locus at the end of chr1 whose second exon is 44 bp long in three quarters of the reads (14651-14694) and 9 bp long
+    and 50 bp further downstream in the others (14701-14709): the bulge removal of the intron graph replaces an intron of the minority
+    by the similar majority intron; a reported model still consists of introns that some read has
  W2 full-length reads of T7 (gene G5) WITH polyA tails: the known isoform is reported (next to J1: novel genes inside a reported gene)
  Y0 full-length reads of TA (gene G11: TA = exons 1-5, TB = exons 1,3,5)
  Y1 reads over G11 exons 1,2',3,5 where 2' starts 12 bp upstream of the annotated acceptor (more than delta, less than the
@@ -39,7 +42,7 @@ import shutil
 
 from vlib import worlds as W
 
-STRUCTS = ["K1", "K2", "K4", "P1", "Q1", "N1", "N2", "N3", "X1", "X2", "M1", "A1", "G1", "S1", "V1", "W1", "V2", "H1", "H2", "Y0", "Y1", "I1", "I2", "F1", "F2", "Z1", "Z2", "S2", "J1", "NC", "MA", "H3", "W2", "LQ", "D1"]
+STRUCTS = ["K1", "K2", "K4", "P1", "Q1", "N1", "N2", "N3", "X1", "X2", "M1", "A1", "G1", "S1", "V1", "W1", "V2", "H1", "H2", "Y0", "Y1", "I1", "I2", "F1", "F2", "Z1", "Z2", "S2", "J1", "NC", "MA", "H3", "W2", "LQ", "D1", "B9"]
 NC_EXONS = [[6501, 6650], [6801, 6950], [7101, 7300]]
 # three unannotated loci inside gene G5 (+): two on '+' (in introns 1 and 3), one antisense spanning both (canonical for '-')
 J_PLUS_A = [[9321, 9420], [9521, 9620], [9681, 9780]]
@@ -54,7 +57,7 @@ G5_EXONS = [[9001, 9300], [9801, 10000], [10601, 10800], [11401, 11700], [12501,
 LEVELS = (1, 3, 12)
 # structures by the locus they live in (structures of different loci do not interact except through id numbering)
 LOCUS = {"G1": ["K1", "K2", "P1", "Q1", "N1", "N2", "N3", "X1", "X2", "A1", "S1", "V1", "I1", "I2", "D1"], "G2": ["K4"], "U1": ["M1"], "U2": ["G1"],
-         "G5": ["W1", "V2", "J1", "W2"], "G6": ["H1", "H2", "F1", "F2", "H3"], "G11": ["Y0", "Y1"], "ZA": ["Z1"], "ZB": ["Z2"], "U3": ["S2"], "U4": ["NC"], "U5": ["MA"], "U6": ["LQ"]}
+         "G5": ["W1", "V2", "J1", "W2"], "G6": ["H1", "H2", "F1", "F2", "H3"], "G11": ["Y0", "Y1"], "ZA": ["Z1"], "ZB": ["Z2"], "U3": ["S2"], "U4": ["NC"], "U5": ["MA"], "U6": ["LQ"], "U7": ["B9"]}
 LOCUS_OF = {st: loc for loc, sts in LOCUS.items() for st in sts}
 
 
@@ -155,6 +158,9 @@ def structure_reads(struct, level, tag):
                 reads.append(W.read_of(nm, "chr2", [[12041 + 5 * k, 12200 + 5 * k]], polya=False, mapq=3))
         elif struct == "D1":
             reads.append(W.read_of(nm, "chr1", E([0, 1, 2, 3]) + [slot(4, de=300)]))
+        elif struct == "B9":
+            mid = [14701, 14709] if k % 4 == 0 else [14651, 14694]
+            reads.append(W.read_of(nm, "chr1", [[14501, 14600], mid, [14901, 15000], [15101, 15200]]))
         elif struct == "W2":
             reads.append(W.read_of(nm, "chr1", G5_EXONS))
         elif struct == "Y0":
@@ -172,7 +178,7 @@ def structure_reads(struct, level, tag):
 def make_world(scenario, annotated=True):
     """scenario: tuple of (struct, level)"""
     from vlib import syn
-    w = {"chroms": {"chr1": 14500, "chr2": 14400}, "genes": [], "reads": [], "sites": []}
+    w = {"chroms": {"chr1": 15300, "chr2": 14400}, "genes": [], "reads": [], "sites": []}
     g1 = W.locus_gene("G1", "chr1", "+", 1000, {"T1": [0, 1, 2, 3, 4], "T2": [0, 2, 3, 4]})
     g2 = W.locus_gene("G2", "chr2", "-", 1000, {"T4": [0, 1, 2, 3]})
     g5 = {"id": "G5", "chr": "chr1", "strand": "+", "transcripts": [{"id": "T7", "exons": [list(e) for e in G5_EXONS]}]}
@@ -219,6 +225,8 @@ def make_world(scenario, annotated=True):
     w["patches"] = [["chr2", 7801, "A" * 20]]
     W.add_sites_for_blocks(w, "chr2", [[9601, 9800], [10101, 10400]], "+")
     W.add_sites_for_blocks(w, "chr2", [[11501, 11700], [12001, 12300]], "+")
+    W.add_sites_for_blocks(w, "chr1", [[14501, 14600], [14651, 14694], [14901, 15000], [15101, 15200]], "+")
+    W.add_sites_for_blocks(w, "chr1", [[14501, 14600], [14701, 14709], [14901, 15000]], "+")
     W.add_sites_for_blocks(w, "chr2", [[Z_EXONS[0][0], Z_EXONS[0][1] + 4], Z_EXONS[1], Z_EXONS[2]], "+")
     W.dedup_sites(w)
     reads = []
